@@ -285,12 +285,21 @@ func EnsureInterface(in interface{}, err error) (interface{}, error) {
 		return in, err
 	}
 	if v, ok := in.(reflect.Value); ok {
-		in = v.Interface()
+		in = derefMapPtr(v).Interface()
 	}
 	if v, ok := in.(*_refHolder); ok {
 		in = v.value.Interface()
 	}
 	return in, nil
+}
+
+// a map is registered for back-references through a pointer (the map is filled after it has
+// been registered); a back-reference to it yields the map, as its first occurrence does
+func derefMapPtr(v reflect.Value) reflect.Value {
+	if v.Kind() == reflect.Ptr && !v.IsNil() && v.Elem().Kind() == reflect.Map {
+		return v.Elem()
+	}
+	return v
 }
 
 //IsRawKind check whether k is raw kind
